@@ -1,8 +1,8 @@
 SPECIFICATION TSpec
 CONSTANTS
   Transport = "quic"
-  ResidueAfterFailure = TRUE
-  ShortCookieRead = TRUE
+  ResidueAfterFailure = FALSE
+  ShortCookieRead = FALSE
   DialResetsData = FALSE
   Alpns = {}
   Alphabet = {}
